@@ -221,10 +221,10 @@ def d_atomic(ctx: Ctx, only: tp.Optional[tp.Sequence[str]] = None) -> None:
     D1 = 'D1.lock-step'
     D2 = 'D2.validate-before-mutate'
     ctx.rule(D1, 'in every grow-only mutator the state components that must move together are all updated on every '
-             'path from the first mutation to a normal exit (counting loops over a positive count run at least once)', floor=10 if only is None else 5)
+             'path from the first mutation to a normal exit (counting loops over a positive count run at least once)', floor=10 if only is None else (5 if len(only) > 1 else 1))
     ctx.rule(D2, 'after the first mutation of a grow-only mutator nothing can raise explicitly: no raise/assert statement, '
              'no per-item loop over a fallible mutator, and every fallible second mutation is pre-validated '
-             '(duplicate check before the first mutation, row count established for the block)', floor=14 if only is None else 6)
+             '(duplicate check before the first mutation, row count established for the block)', floor=14 if only is None else (6 if len(only) > 1 else 2))
     prog = ctx.prog
     for qual, (receivers, comps, optional) in MUTATORS.items():
         if only is not None and not qual.startswith(tuple(only)):
